@@ -143,7 +143,10 @@ def lift(d, rng=None, nt=float, form=None):
                 vs = vs[s:] + vs[:s]
                 if r.random() < 0.5:
                     vs.reverse()
-        return G.ConvexPolygon(tuple(P(v) for v in vs))
+        pg = G.ConvexPolygon(tuple(P(v) for v in vs))
+        if r is not None and r.random() < 0.12:
+            pg = -pg                      # the same set, obtained as the negation of a polygon
+        return pg
     if k == "PH":
         faces = list(d[2])
         if r is not None:
@@ -156,7 +159,10 @@ def lift(d, rng=None, nt=float, form=None):
                 vs = vs[s:] + vs[:s]
                 if r.random() < 0.5:
                     vs.reverse()
-            polys.append(G.ConvexPolygon(tuple(P(v) for v in vs)))
+            fpg = G.ConvexPolygon(tuple(P(v) for v in vs))
+            if r is not None and r.random() < 0.08:
+                fpg = -fpg
+            polys.append(fpg)
         return G.ConvexPolyhedron(tuple(polys))
     raise ValueError(k)
 
